@@ -31,9 +31,17 @@ pub fn run(ctx: &Ctx, rep: &mut Report) {
     engine::drive(ctx, rep, "histories", iovec_sm::history(Mix::General, 60), cases, check_case);
     let cases = ctx.share(ctx.tier.pick(9_000, 100_000));
     engine::drive(ctx, rep, "long-histories", iovec_sm::history(Mix::General, 200), cases, check_case);
+    let cases = ctx.share(ctx.tier.pick(4_000, 100_000));
+    {
+        let _ballast = iovec_sm::Ballast::new(iovec_sm::BALLAST_MIB);
+        engine::drive(ctx, rep, "histories-with-ballast", iovec_sm::history(Mix::General, 60), cases, check_case);
+    }
 }
 
-fn replay(_ctx: &Ctx, _group: &str, case: &Value) -> CaseResult {
+fn replay(_ctx: &Ctx, group: &str, case: &Value) -> CaseResult {
+    if group.ends_with("with-ballast") {
+        return iovec_sm::check_with_ballast(&parse_case::<History>(case)?, check_case);
+    }
     check_case(&parse_case::<History>(case)?)
 }
 
